@@ -428,6 +428,194 @@ impl<C: Suite> Model for MAggPattern<C> {
     }
 }
 
+// ---- very long lists: aggregation only (C03) ---------------------------------------------------------------------
+//
+// The aggregate of n signatures is their plain sum for every n; a list counted with a 16 bit integer, or a cap on the
+// work done for "untrusted" lists, shows beyond 2^16 entries. Only the aggregation side is run (a verification of
+// 65 537 pairs costs minutes): bytes against the reference sum, and a foreign scheme label at the last position.
+
+#[derive(Copy, Clone, Debug, PartialEq, Eq, Hash, Serialize, Deserialize)]
+pub struct HugeSt {
+    s: Scheme,
+    n: usize,
+    /// a part under another scheme label at the last position (must be refused)
+    foreign_last: bool,
+}
+
+pub struct MAggHuge<C: Suite> {
+    prop: &'static str,
+    tier: Tier,
+    /// 64 signatures per scheme, entry i of a list is signature i mod 64
+    sigs: Vec<Vec<Signature<C>>>,
+    rsigs: Vec<Vec<<C::R as RefSuite>::Sig>>,
+}
+
+impl<C: Suite> MAggHuge<C> {
+    pub fn new(prop: &'static str, tier: Tier) -> Self {
+        let sks: Vec<SecretKey<C>> = (0..64).map(|i| SecretKey::<C>::from_hash(format!("aggx-huge-{}", i))).collect();
+        let sigs: Vec<Vec<Signature<C>>> = SCHEMES.iter().map(|s| par_table(64, |i| sks[i].sign(lib_scheme(*s), format!("huge aggregate message {}", i).as_bytes()).expect("honest sign"))).collect();
+        let rsigs = sigs.iter().map(|l| l.iter().map(|x| <C::R as RefSuite>::sig_from(&pt(x.as_raw_value())).expect("decodes")).collect()).collect();
+        MAggHuge { prop, tier, sigs, rsigs }
+    }
+}
+
+impl<C: Suite> Model for MAggHuge<C> {
+    type State = Option<HugeSt>;
+    type Action = HugeSt;
+    fn name(&self) -> String {
+        format!("{}-aggregate-very-long-lists/{}", self.prop.to_lowercase(), C::G)
+    }
+    fn init(&self) -> Vec<Option<HugeSt>> {
+        vec![None]
+    }
+    fn actions(&self, st: &Option<HugeSt>) -> Vec<HugeSt> {
+        if st.is_some() {
+            return vec![];
+        }
+        let ns: &[usize] = if self.tier.thorough() { &[8191, 8193, 32769, 65535, 65536, 65537, 65538, 70001, 131073, 262145] } else { &[8193, 65536, 65537, 70001] };
+        let mut v = vec![];
+        for s in SCHEMES {
+            for &n in ns {
+                v.push(HugeSt { s, n, foreign_last: false });
+                v.push(HugeSt { s, n, foreign_last: true });
+            }
+        }
+        v
+    }
+    fn step(&self, _s: &Option<HugeSt>, a: &HugeSt) -> Option<Option<HugeSt>> {
+        Some(Some(*a))
+    }
+    fn describe(&self, st: &Option<HugeSt>) -> String {
+        format!("{} aggregation of a very long list {:?}", C::G, st)
+    }
+    fn required_outcomes(&self) -> Vec<String> {
+        vec!["very-long:is-sum".into(), "very-long:foreign-label-refused".into()]
+    }
+    fn check(&self, st: &Option<HugeSt>, o: &mut Obs) {
+        let Some(st) = st else { return };
+        o.nontrivial = true;
+        let (p, g, sn) = (self.prop, C::G, st.s.name());
+        let own = &self.sigs[st.s.idx()];
+        let mut list: Vec<Signature<C>> = (0..st.n).map(|i| own[(i * 7 + i / 64) % 64]).collect();
+        if st.foreign_last {
+            let other = SCHEMES[(st.s.idx() + 1) % 3];
+            list[st.n - 1] = mk_sig::<C>(other, *list[st.n - 1].as_raw_value());
+        }
+        let r = guard(|| AggregateSignature::<C>::from_signatures(&list));
+        o.calls(1);
+        let band = if st.n > 65536 { ">2^16" } else { "<=2^16" };
+        if st.foreign_last {
+            let refused = matches!(&r, Ok(Err(_)));
+            o.outcome(if refused { "very-long:foreign-label-refused" } else { "very-long:foreign-label-accepted" });
+            o.expect(&format!("{}:very-long-list-foreign-label-at-the-end:{}:{}:{}", p, g, sn, band), refused, "Err (mixed schemes)", verdict(&r));
+            return;
+        }
+        let mut rsum = <<C::R as RefSuite>::Sig as bls12_381_plus::group::Group>::identity();
+        for i in 0..st.n {
+            rsum += self.rsigs[st.s.idx()][(i * 7 + i / 64) % 64];
+        }
+        let ok = matches!(&r, Ok(Ok(a)) if Vec::<u8>::from(a)[1..] == rf::enc(&rsum)[..]);
+        o.outcome(if ok { "very-long:is-sum" } else { "very-long:differs" });
+        o.expect(&format!("{}:very-long-list-aggregate-is-sum:{}:{}:{}", p, g, sn, band), ok, "the reference point sum of all entries", verdict(&r));
+    }
+}
+
+// ---- messages derived from another message of the list (C03, C06) -------------------------------------------------
+//
+// Lists in which one message is a function of another one: its SHA-256 / SHA3-256 / SHA-512 digest, its first 32 bytes,
+// its hex text, its reversal. A verifier that keys a table of messages by anything shorter than the message itself
+// (a digest for long ones, a prefix) merges two entries here. Distinct signers; every ordered pair and triple.
+
+#[derive(Clone, Debug, PartialEq, Eq, Hash, Serialize, Deserialize)]
+pub struct DerSt {
+    s: Scheme,
+    list: Vec<u8>,
+    /// the signatures of entry `list[0]`'s message at every position (nobody signed the other messages): must be rejected
+    forged: bool,
+}
+
+pub struct MAggDerived<C: Suite> {
+    prop: &'static str,
+    sks: Vec<SecretKey<C>>,
+    msgs: Vec<(String, Vec<u8>)>,
+}
+
+impl<C: Suite> MAggDerived<C> {
+    pub fn new(prop: &'static str) -> Self {
+        use sha2::Digest as _;
+        let long = b"a message of more than thirty-two bytes, the digests of which are messages of the same list".to_vec();
+        let msgs = vec![
+            ("L".to_string(), long.clone()),
+            ("SHA-256(L)".to_string(), sha2::Sha256::digest(&long).to_vec()),
+            ("SHA3-256(L)".to_string(), <sha3::Sha3_256 as sha3::Digest>::digest(&long).to_vec()),
+            ("SHA-512(L)".to_string(), sha2::Sha512::digest(&long).to_vec()),
+            ("L[..32]".to_string(), long[..32].to_vec()),
+            ("hex(SHA-256(L))".to_string(), hex::encode(sha2::Sha256::digest(&long)).into_bytes()),
+            ("SHA-256(SHA-256(L))".to_string(), sha2::Sha256::digest(sha2::Sha256::digest(&long)).to_vec()),
+        ];
+        let sks = (0..3).map(|i| SecretKey::<C>::from_hash(format!("aggx-derived-{}", i))).collect();
+        MAggDerived { prop, sks, msgs }
+    }
+}
+
+impl<C: Suite> Model for MAggDerived<C> {
+    type State = DerSt;
+    type Action = u8;
+    fn name(&self) -> String {
+        format!("{}-aggregate-messages-derived-from-one-another/{}", self.prop.to_lowercase(), C::G)
+    }
+    fn init(&self) -> Vec<DerSt> {
+        SCHEMES.iter().map(|s| DerSt { s: *s, list: vec![], forged: false }).collect()
+    }
+    fn actions(&self, st: &DerSt) -> Vec<u8> {
+        if st.forged {
+            return vec![];
+        }
+        let mut a: Vec<u8> = if st.list.len() >= 3 { vec![] } else { (0..self.msgs.len() as u8).filter(|m| !st.list.contains(m)).collect() };
+        if st.list.len() >= 2 {
+            a.push(100);
+        }
+        a
+    }
+    fn step(&self, st: &DerSt, a: &u8) -> Option<DerSt> {
+        let mut n = st.clone();
+        if *a == 100 {
+            n.forged = true;
+        } else {
+            n.list.push(*a);
+        }
+        Some(n)
+    }
+    fn describe(&self, st: &DerSt) -> String {
+        format!("{} {} aggregate of distinct signers over [{}]{}", C::G, st.s.name(), st.list.iter().map(|m| self.msgs[*m as usize].0.clone()).collect::<Vec<_>>().join(", "), if st.forged { ", every part made over the first message" } else { "" })
+    }
+    fn required_outcomes(&self) -> Vec<String> {
+        vec!["derived:accept".into(), "derived:forged-reject".into()]
+    }
+    fn check(&self, st: &DerSt, o: &mut Obs) {
+        if st.list.len() < 2 {
+            return;
+        }
+        o.nontrivial = true;
+        let (p, g, sn) = (self.prop, C::G, st.s.name());
+        let list: Vec<(PublicKey<C>, Vec<u8>)> = st.list.iter().enumerate().map(|(i, m)| (self.sks[i].public_key(), self.msgs[*m as usize].1.clone())).collect();
+        let sigs: Vec<Signature<C>> = st.list.iter().enumerate().map(|(i, m)| self.sks[i].sign(lib_scheme(st.s), &self.msgs[if st.forged { st.list[0] } else { *m } as usize].1).expect("honest sign")).collect();
+        let r = guard(|| AggregateSignature::<C>::from_signatures(&sigs).and_then(|a| a.verify(&list)));
+        o.calls(2);
+        let acc = matches!(&r, Ok(Ok(())));
+        let pairs: Vec<(Vec<u8>, Vec<u8>)> = list.iter().map(|(k, m)| (Vec::<u8>::from(k), m.clone())).collect();
+        let mut sum = SgP::<C>::identity();
+        for x in &sigs {
+            sum += x.as_raw_value();
+        }
+        let want = rf::aggregate_verify::<C::R>(st.s, &pairs, &pt(&sum));
+        assert_eq!(want, !st.forged, "the reference accepts exactly the honest lists");
+        o.outcome(if st.forged { if acc { "derived:forged-accept" } else { "derived:forged-reject" } } else if acc { "derived:accept" } else { "derived:reject" });
+        let which = st.list.iter().map(|m| self.msgs[*m as usize].0.clone()).collect::<Vec<_>>().join("+");
+        o.expect(&format!("{}:messages-derived-from-one-another:{}:{}:{}:{}", p, g, sn, if st.forged { "forged" } else { "honest" }, which), acc == want && r.is_ok(), if want { "accept" } else { "reject" }, verdict(&r));
+    }
+}
+
 pub fn models(prop: &'static str, tier: Tier, seed: u64) -> Vec<Box<dyn DynModel>> {
     let d = if tier.thorough() { 5 } else { 4 };
     let mut v = if prop == "C17" { vec![] } else { vec![bounded(MAggX::<Bls12381G1Impl>::new(prop, tier, seed), d), bounded(MAggX::<Bls12381G2Impl>::new(prop, tier, seed), d)] };
@@ -439,6 +627,12 @@ pub fn models(prop: &'static str, tier: Tier, seed: u64) -> Vec<Box<dyn DynModel
     if prop == "C03" {
         v.push(bounded(MAggLarge::<Bls12381G1Impl>::new(prop, tier), 1));
         v.push(bounded(MAggLarge::<Bls12381G2Impl>::new(prop, tier), 1));
+        v.push(bounded(MAggHuge::<Bls12381G1Impl>::new(prop, tier), 1));
+        v.push(bounded(MAggHuge::<Bls12381G2Impl>::new(prop, tier), 1));
+    }
+    if prop == "C03" || prop == "C06" {
+        v.push(bounded(MAggDerived::<Bls12381G1Impl>::new(prop), 4));
+        v.push(bounded(MAggDerived::<Bls12381G2Impl>::new(prop), 4));
     }
     v
 }
